@@ -157,6 +157,7 @@ class Verdict:
         self.prop, self.tier = prop, tier
         self.violations = []
         self.known = []
+        self.known_counts = {}
         self.t0 = time.time()
         self.cov = {}
         self.assumptions = []
@@ -171,8 +172,13 @@ class Verdict:
         return path
 
     def known_finding(self, what):
-        if what not in self.known:
-            self.known.append(what)
+        # one line per listed finding (keyed by its signature = text before the first ':' / ' (')
+        key = what.split(":")[0].split(" (")[0]
+        for i, k in enumerate(self.known):
+            if k.split(":")[0].split(" (")[0] == key:
+                self.known_counts[key] = self.known_counts.get(key, 1) + 1
+                return
+        self.known.append(what)
 
     def finish(self, level="model_checking"):
         ev = {
@@ -184,7 +190,9 @@ class Verdict:
         with open(os.path.join(VERIF, "evidence", self.prop + ".json"), "w") as fh:
             json.dump(ev, fh, indent=1)
         for k in self.known:
-            print("KNOWN-FINDING: property=%s %s" % (self.prop, k))
+            key = k.split(":")[0].split(" (")[0]
+            extra = " [seen in %d stages of this run]" % self.known_counts[key] if key in self.known_counts else ""
+            print("KNOWN-FINDING: property=%s %s%s" % (self.prop, k, extra))
         for path, what in self.violations[:20]:
             print("VIOLATION property=%s replay=%s" % (self.prop, path))
             if what:
